@@ -44,4 +44,9 @@ def svd_sweep_parameters(inp):
 
 
 # thorough tier (bounded native sweeps): (function, inputs, obligation of the open finding it reproduces or None)
+def create_delta_spec(inp):
+    from replay.c01 import create_delta_spec as f
+    return f(inp)
+
+
 THOROUGH = [('tempo_vs_pt', {}, None)]
